@@ -87,6 +87,15 @@ def perturb(tree, rng):
     for p, c in edges:
         t.edges.add_row(0, 1, p, c)
     t.sort()
+    # the rank is that of the leaf-labelled topology: which nodes are flagged as samples does not enter (an internal node may be a sample, a
+    # leaf need not be one).  Decided by a generator of its own, so that the other draws stay as they were.
+    r2 = random.Random(len(edges) * 7919 + int(sum(height.values())))
+    fl = t.nodes.flags
+    if internal and r2.random() < 0.5:
+        fl[newid[r2.choice(internal)]] = 1
+    if n >= 3 and r2.random() < 0.4:
+        fl[r2.randrange(n)] = 0
+    t.nodes.flags = fl
     return t.tree_sequence().first()
 
 
@@ -123,17 +132,54 @@ def table_case(n, rng):
     return dict(kind="table", n=n, rows=rows, oob=oob, perturbed=pert, iter_same=1 if same else 0)
 
 
-def count_case(rng, rank2clades):
+def fixed_tree(nested):
+    """a tree from nested tuples of leaf ids, e.g. ((0, (1, 2)), (3, (4, 5)))"""
+    leaves = []
+
+    def walk(x):
+        if isinstance(x, int):
+            leaves.append(x)
+        else:
+            for y in x:
+                walk(y)
+    walk(nested)
+    t = tskit.TableCollection(1)
+    for _ in range(len(leaves)):
+        t.nodes.add_row(flags=1, time=0)
+
+    def build(x):
+        if isinstance(x, int):
+            return x, 0
+        kids = [build(y) for y in x]
+        h = 1 + max(k[1] for k in kids)
+        u = t.nodes.add_row(time=h)
+        for c, _h in kids:
+            t.edges.add_row(0, 1, u, c)
+        return u, h
+    build(nested)
+    t.sort()
+    return t.tree_sequence().first()
+
+
+# shapes that the random draws reach only now and then: sibling sub-topologies of the same shape with three and more tips each (the order of
+# equal-shaped children is decided by their labels), with every tip in a sample set of its own
+FIXED_COUNT_TREES = [((0, (1, 2)), (3, (4, 5))), ((5, (0, 3)), (1, (2, 4))), (((0, 4), 2), ((1, 5), 3)), ((0, (1, 2)), (3, (4, 5)), 6),
+                     ((2, (0, 1)), (5, (3, 4)))]
+
+
+def count_case(rng, rank2clades, fixed=None):
     # a tree with leaf samples only: any topology (polytomies included) on 4-7 leaves, sometimes with the
     # edges below the root removed (multiple roots) or an extra unary node chain
     n = rng.randint(4, 7)
-    if n <= 5:
+    if fixed is not None:
+        tree = fixed_tree(fixed)
+    elif n <= 5:
         ranks = [t.rank() for t in tskit.all_trees(n)]
         tree = tskit.Tree.unrank(n, rng.choice(ranks))
     else:
         tree = tskit.Tree.generate_random_binary(n, random_seed=rng.randrange(1, 2 ** 31))
     t = tree.tree_sequence.dump_tables()
-    if rng.random() < 0.3 and len(t.edges) > 2:
+    if fixed is None and rng.random() < 0.3 and len(t.edges) > 2:
         root = tree.root
         keep = np.array([e.parent != root for e in t.edges])
         t.edges.keep_rows(keep)
@@ -144,6 +190,8 @@ def count_case(rng, rank2clades):
     pool = S[:]
     rng.shuffle(pool)
     pool = pool[:rng.randint(min(len(pool), nsets + 1), len(pool))]
+    if fixed is not None:
+        nsets, pool = min(6, len(S)), S[:]
     sets = [[] for _ in range(nsets)]
     for i, u in enumerate(pool):
         sets[i % nsets if i < nsets else rng.randrange(nsets)].append(u)
@@ -210,6 +258,10 @@ def run():
     chk.extra["default_sample_set_cases"] = dflt
     for i in range(150 if QUICK else 3000):
         c = count_case(rng, rank2clades)
+        if c is not None:
+            cases.append(c)
+    for nested in FIXED_COUNT_TREES:
+        c = count_case(random.Random(len(str(nested))), rank2clades, fixed=nested)
         if c is not None:
             cases.append(c)
     # incremental tree-sequence counter on multi-tree sequences
